@@ -85,7 +85,7 @@ def run(ctx):
         return [P.two_runs("KdqTreeStreaming", dict(p, alpha=al[j]), dict(p, alpha=al[i]), h, s, "FirstDriftNotLater", extra={"par": "alpha"})
                 for i in range(5) for j in range(i + 1, 5)]
     from ..core import pmap
-    for grp in pmap(hover, [(rng.randrange(10 ** 6),) for _ in range(16 if q else 120)]):
+    for grp in pmap(hover, [(rng.randrange(10 ** 6),) for _ in range(40 if q else 200)]):
         ts += grp
     ctx.validate("Product", ts, "strict vs loose detection threshold, same history and seed schedule (12 families)",
                  replay=lambda i: {"mode": "detect", "fam": ts[i]["fam"], "pa": ts[i]["pa"], "pb": ts[i]["pb"], "items": ts[i]["items"], "seed": ts[i]["seed"]},
